@@ -716,6 +716,22 @@ theorem gnimTop_args {kw a : Assoc} (h : call gnimSig [data, data] kw = .ok a) :
   · rw [arg_resolve gnimSig _ "extrema_opts" none' rfl]
     simp [-String.reduceToList, Assoc.append, Assoc.lookup, z3, a3, kwArg]; rfl
 
+/-- the two entries `mask_sift_second_layer` writes into `sift_args` leave every other option untouched -/
+theorem lookup_maskSecondArgs (kw : Assoc) (q : Key) (h1 : q ≠ "max_imfs".toList) (h2 : q ≠ "mask_freqs".toList) :
+    (maskSecondArgs kw).lookup q = kw.lookup q := by
+  unfold maskSecondArgs
+  simp only []
+  rw [Assoc.lookup_insert_other _ _ _ h2]
+  split
+  · rfl
+  · rw [Assoc.lookup_insert_other _ _ _ h1]
+
+theorem kwArg_maskSecondArgs (kw : Assoc) :
+    kwArg (maskSecondArgs kw) "imf_opts" = kwArg kw "imf_opts" ∧
+    kwArg (maskSecondArgs kw) "envelope_opts" = kwArg kw "envelope_opts" ∧
+    kwArg (maskSecondArgs kw) "extrema_opts" = kwArg kw "extrema_opts" := by
+  refine ⟨?_, ?_, ?_⟩ <;> (unfold kwArg; rw [lookup_maskSecondArgs kw _ (by decide) (by decide)])
+
 theorem runVariant_obeys : ∀ (v : Variant) {kw : Assoc} {cs : List StageCall},
     runVariant false v kw = .ok cs →
     Obeys (imfOf v kw) (dictOf (kwArg kw "envelope_opts")) (dictOf (kwArg kw "extrema_opts")) cs
@@ -742,6 +758,11 @@ theorem runVariant_obeys : ∀ (v : Variant) {kw : Assoc} {cs : List StageCall},
   | .nextImf, kw, cs, h =>
     (gniM_nil_spec (show gniM [] kw = .ok cs from h)).obeys (fun _ _ _ => rfl)
   | .second v, kw, cs, h => runVariant_obeys v (show runVariant false v kw = .ok cs from h)
+  | .maskSecond, kw, cs, h => by
+    have ob := maskM_obeys (show maskM (maskSecondArgs kw) = .ok cs from h)
+    obtain ⟨e1, e2, e3⟩ := kwArg_maskSecondArgs kw
+    rw [e1, e2, e3] at ob
+    exact ob
 
 /-! ### delivery routes -/
 
